@@ -94,6 +94,8 @@ def run_history(rac, ops, follow=True):
             # (once a declared ordering cycle -- known finding K1 of C01 -- has occurred in the history a dependant may have been
             #  left stale by it: the values are no longer attributable to removed definitions)
             k1_seen = k1_seen or w.k1_seen or bool(orc.sibling_feed() or G.declared_cycle(w.m))
+            # (Manager.load registers definitions without running them: from then on the data are not comparable with the definitions)
+            k1_seen = k1_seen or op[0] == "load"
             if op[0] in ("val", "expr", "unreg") and not k1_seen:
                 exp, act = orc.expected(), w.actual()
                 badv = [(G.locstr(l), act[l], exp[l]) for l in G.LOCS if not G.close(exp[l], act[l])]
@@ -185,6 +187,26 @@ def main():
                         nt = True
                         defined.discard(o[1])
                 rac.case(ops, nontrivial=nt, sample=[G.opstr(o) for o in ops])
+    B, C, A_, NX = ("b",), ("c",), ("a",), ("n", "x")
+    lalpha = [("load", [(B, "dbl", (A_,)), (B, "inc", (A_,))], True), ("load", [(B, "dbl", (A_,)), (B, "inc", (A_,))], False),
+              ("load", [(C, "sum", (A_, B)), (NX, "dbl", (A_,))], True), ("load", [(B, "dbl", (A_,)), (C, "inc", (B,)), (B, "rsub", (A_,))], True),
+              ("load", [(C, "inc", (NX,)), (C, "inc", (NX,))], True),
+              ("expr", B, "neg", (A_,)), ("expr", C, "mix", (B, A_)), ("val", B, 4.0), ("val", A_, 2.0), ("unreg", B), ("unreg", C)]
+    LL = 3 if quick else 4
+    rac.section("loads", f"every history of length <= {LL} over {len(lalpha)} operations with Manager.load(dump, overwrite=True / False) of dumps that define the SAME "
+                "location more than once (a base dump followed by overrides), mixed with definitions, plain assignments and removals: indices == F(registered "
+                "tasks), verify(), queries and follow-up assignments equal to a fresh manager holding the surviving definitions (with overwrite the LAST entry "
+                "for a location survives, without it the first); non-trivial = a load is present", f"length<={LL}, |alphabet|={len(lalpha)}")
+    for n in range(1, LL + 1):
+        for ops in itertools.product(lalpha, repeat=n):
+            if n > 2 and rac.out_of_time(0.75):
+                rac.sections["loads"]["exhaustive"] = False
+                rac.exhaustive = False
+                break
+            if not any(o[0] == "load" for o in ops):
+                continue
+            if run_history(rac, ops):
+                rac.case(("loads",) + tuple(map(repr, ops)), nontrivial=True, sample=[G.opstr(o) for o in ops])
     rac.section("random", "random histories of length 6..16 (seeded; every other one with definitions that read a nested container as a whole "
                 "and containers replaced by value), same checks", "150 quick / 3000 thorough", exhaustive=False)
     for _k in range(150 if quick else 3000):
